@@ -64,7 +64,7 @@ package engine
 //@ func (s *session) countWaits
 //@   pure
 //@   uses waitsIn_def, waitsUpTo_def
-//@   reads session::runs, elems[flows.Run], runs.run::events, elems[flows.Event]
+//@   reads session::runs, elems[flows.Run], runs.run::events, elems[flows.Event], events.BaseEvent::Type_
 //@   requires runsOK(s)
 //@   ensures [counts_every_wait] result >= waitsUpTo(s, len(s.runs))
 //@ loop 1
